@@ -147,7 +147,14 @@ def run(v, tier, st, pr):
         if x != y:
             fails.append({'cause': 'oracle', 'clause': 'the result of parsing a document changed after other documents were parsed and edited',
                           'input': {'kind': 'document', 'text_hex': hexs(t), 'text': t}})
-    sample = r.sample(range(len(docs)), 6 if tier == 'quick' else 40)
+    # documents whose first parse in an interpreter exercises one-shot state (first parenthesised type, first note, first quoted name ...)
+    firsts = [('Table t {\n  a numeric( 10 ,  2 )\n  b varchar( 255 )\n  c numeric(10,\n 2)\n}\n', False),
+              ("Table \"t t\" {\n  \"a b\" int [note: '''\n    x\n      y\n  ''', default: `now()`]\n  indexes {\n    (`a+b`, \"a b\") [name: 'i x']\n  }\n}\n", False),
+              ("Enum e {\n  \"x y\" [note: 'n']\n}\nTable t [k: 'v'] {\n  c e [k2: 'w']\n}\n", True)]
+    base_n = len(docs)
+    docs = docs + firsts
+    alone = alone + [observe(t, a) for t, a in firsts]
+    sample = r.sample(range(base_n), 6 if tier == 'quick' else 40) + list(range(base_n, len(docs)))
     fresh = fresh_process([docs[i] for i in sample])
     for i, f in zip(sample, fresh):
         if f != alone[i]:
